@@ -114,13 +114,20 @@ def all_stmts(r, stmts, mode, private_ok=False):
     if mode == "string":          # list("ab") = ['a', 'b']
         es = [n for n in pool if len(n) == 1]
         return [st("__all__ = %r" % "".join(es[:2]))] if es else []
+    if mode == "annotated":
+        return [st("__all__: list = %r" % (entries(),))]
+    if mode == "annotated_aug":
+        return [st("__all__: list = %r" % (entries(),)), st("__all__ += %s" % lit(entries(1, 2)))]
+    if mode == "annotated_nonliteral":
+        return [st("__all__ = %s" % lit(entries())), st("__all__: list = [n for n in %r]" % (entries(),))]
     if mode == "aug_only":
         return [st("_q = []\n_q += ['zz']")]
     raise ValueError(mode)
 
 
 ALL_MODES = ["none"] * 9 + ["literal"] * 5 + ["literal_aug"] * 2 + ["nonliteral", "aug_nonliteral",
-             "reassigned", "reassigned_bad", "chain", "string"]
+             "reassigned", "reassigned_bad", "chain", "string", "annotated", "annotated", "annotated_aug",
+             "annotated_nonliteral"]
 
 
 def insert_all(r, stmts, extra):
@@ -428,7 +435,8 @@ def summarize(src):
         if isinstance(n, ast.Assign):
             out.append({"k": "assign", "ts": [t_target(t) for t in n.targets], "v": t_lit(n.value)})
         elif isinstance(n, ast.AnnAssign):
-            out.append({"k": "ann", "t": t_target(n.target), "hasv": n.value is not None})
+            out.append({"k": "ann", "t": t_target(n.target), "hasv": n.value is not None,
+                        "v": t_lit(n.value) if n.value is not None else None})
         elif isinstance(n, ast.ClassDef):
             out.append({"k": "class", "n": n.name})
         elif isinstance(n, ast.FunctionDef):
@@ -487,7 +495,7 @@ def c_node(n):
     if k == "assign":
         return "NAssign %s %s" % (cm.clist([c_target(t) for t in n["ts"]]), c_lit(n["v"]))
     if k == "ann":
-        return "NAnnAssign %s %s" % (c_target(n["t"]), cm.cbool(n["hasv"]))
+        return "NAnnAssign %s %s" % (c_target(n["t"]), "(Some %s)" % c_lit(n["v"]) if n["hasv"] else "None")
     if k == "class":
         return "NClassDef %s" % cm.cstr(n["n"])
     if k == "def":
@@ -740,7 +748,7 @@ def is_f19_private_all_entry(name, star):
 def is_dynamic_all_overexport(name, mod, star):
     """C19-b: the module's __all__ is not a literal (the scan falls back to every public top-level name) and the
     name is not in the run-time __all__, i.e. the real star import does not bind it."""
-    return bool(mod) and mod.get("all") in ("nonliteral", "aug_nonliteral", "reassigned_bad") and \
+    return bool(mod) and mod.get("all") in ("nonliteral", "aug_nonliteral", "reassigned_bad", "annotated_nonliteral") and \
         bool(star.get("has_all")) and name not in star.get("all", [])
 
 
@@ -763,7 +771,7 @@ def is_annotated_all(mod):
 
 def expected_exports(m, star):
     """The property's first sentence, from the generator's own record of the module."""
-    lit_modes = {"literal", "literal_aug", "reassigned", "chain", "string"}
+    lit_modes = {"literal", "literal_aug", "reassigned", "chain", "string", "annotated", "annotated_aug"}
     if m["all"] in lit_modes:
         if "exc" in star:
             return None
@@ -798,22 +806,17 @@ def oracle_case(ctx, c, im):
         if e == "EXC":
             ctx.violation("exports_raise_on_inspectable_module", {"case": c, "module": name}, rec.get("exc"))
         elif exp is not None and got != exp:
-            if is_annotated_all(m):
-                ctx.known_hit("C19-a", "annotated `__all__: T = [...]` is ignored: exports %r, __all__ says %r" % (got, star.get("all")))
-            else:
-                ctx.violation("exports_exact", {"case": c, "module": name},
-                              "exports %r, the property's rule on the generated module gives %r" % (got, exp))
+            ctx.violation("exports_exact", {"case": c, "module": name},
+                          "exports %r, the property's rule on the generated module gives %r" % (got, exp))
         # (2) importable
         if isinstance(e, list) and m.get("broken") != "undefined_entry":
             bad = {x: v for x, v in real["one"].get(name, {}).items() if v is not True}
             if bad:
                 ctx.violation("importable", {"case": c, "module": name}, "from %s import x fails for %r" % (name, bad))
         # (2') exports are a subset of what the real star import binds (module has no __all__ or a good one)
-        if isinstance(e, list) and "names" in star and m["all"] in ("none", "literal", "literal_aug", "reassigned", "chain", "string", "annotated"):
+        if isinstance(e, list) and "names" in star and m["all"] in ("none", "literal", "literal_aug", "reassigned", "chain", "string", "annotated", "annotated_aug"):
             extra = [x for x in e if x not in star["names"]]
-            if extra and is_annotated_all(m):
-                ctx.known_hit("C19-a", "annotated `__all__: T = [...]` is not read: exported but not bound by the real star import: %r" % extra)
-            elif extra:
+            if extra:
                 ctx.violation("exports_subset_of_star", {"case": c, "module": name}, "exported but not bound by the star import: %r" % extra)
     # (3) programs
     for pi, (text, po, pr) in enumerate(zip(c["programs"], im["programs"], real.get("programs", []))):
@@ -857,8 +860,6 @@ def oracle_case(ctx, c, im):
             if p2 and p2[0] == "from" and is_dynamic_all_overexport(k, bymod.get(p2[1]), real["star"].get(p2[1], {})):
                 ctx.known_hit("C19-b", "non-literal __all__: %r is exported statically but not bound by the real star import of %s; "
                                        "its replacement shadows another binding" % (k, p2[1]))
-            elif p2 and p2[0] == "from" and is_annotated_all(bymod.get(p2[1])) and k not in real["star"].get(p2[1], {}).get("all", []):
-                ctx.known_hit("C19-a", "annotated `__all__`: %r is exported but not bound by the real star import of %s; its replacement shadows another binding" % (k, p2[1]))
             elif is_kept_star_resorted(p1, p2, im["mods"]):
                 ctx.known_hit("F7", "a star import that is kept (or two of them) is re-sorted relative to the other imports of its block, "
                                     "so a different import wins for %r (canonical sorting does not preserve which binding wins)" % k)
